@@ -41,7 +41,22 @@ def budget(tier):
     return {'runs': 2500, 'seconds': 75} if tier == 'quick' else {'runs': 200000, 'seconds': 1500}
 
 
+SYSTEMATIC_OBS = ['export', 'summary', 'cost', 'switch_spec_and_back', 'export_nobn', 'str', 'get_cost', 'nas_summary']
+
+
 def generate(seed, run, tier):
+    # thorough: one schedule per block of 48 is systematically re-run with ONE observer at each position
+    # (as an interrupt in the middle of the step when the op at that position is a training step and the
+    # block index is odd)
+    sys_pos = None
+    base_run = run
+    if tier == 'thorough':
+        blk, off = divmod(run, 48)
+        if off >= 8:
+            base_run = blk * 48 + 7
+            sys_pos = off - 8
+    run_ = run
+    run = base_run
     sw = Stream(seed, ID, run, 'swarm')
     ra = Stream(seed, ID, run, 'arch')
     rs = Stream(seed, ID, run, 'schedule')
@@ -60,6 +75,20 @@ def generate(seed, run, tier):
         ops.append(op)
         if op['op'] == 'backward_only' and rs.chance(0.7):
             ops.append({'op': 'opt_step', 'which': op['which'], 'lr': op['lr']})
+    if sys_pos is not None:
+        blk = run_ // 48
+        ob = {'op': SYSTEMATIC_OBS[blk % len(SYSTEMATIC_OBS)]}
+        if ob['op'] == 'export_nobn' and cfg['method'] != 'pit':
+            ob['op'] = 'export'
+        if ob['op'] == 'switch_spec_and_back':
+            ob['name'] = sched.other_cost(cfg, rf)
+        out = list(ops)
+        pos = sys_pos % (len(out) + 1)
+        if pos < len(out) and out[pos]['op'] in ('train_step', 'backward_only') and (blk % 2 == 1):
+            out[pos] = dict(out[pos], mid=[ob])
+        else:
+            out.insert(pos, dict(ob, inject=True))
+        return {'cfg': cfg, 'ops': out, 'run_seed': mix(seed, ID, run, 'run')}
     n_obs = rf.randint(1, 5)
     burst = rf.chance(0.3)
     out = list(ops)
